@@ -128,7 +128,8 @@ fn norm(v: &Value) -> Value {
         Value::Grid(g) => Value::make_grid(Grid {
             meta: g.meta.as_ref().filter(|m| !m.is_empty()).map(nd),
             columns: g.columns.iter().map(|c| libhaystack::val::Column { name: c.name.clone(), meta: c.meta.as_ref().filter(|m| !m.is_empty()).map(nd) }).collect(),
-            rows: g.rows.iter().map(nd).collect(),
+            // in a grid with a single column Zinc cannot tell a row without the cell from a row with a Null cell (an empty line ends the grid)
+            rows: g.rows.iter().map(|r| { let mut r = nd(r); if g.columns.len() == 1 && r.get(&g.columns[0].name).is_none() { r.insert(g.columns[0].name.clone(), Value::Null); } r }).collect(),
             ver: g.ver.clone(),
         }),
         other => other.clone(),
@@ -1240,6 +1241,67 @@ fn main() {
                 }
             } }
             println!("RESULT enum:filter-eval-exhaustive {} filters (1-3 atoms, and/or, minimal and full parentheses) x {} records = {n} evaluations agree with the oracle", exprs.len() * 2, recs.len());
+        }
+        // ---- thorough-tier enumerator for C01 / C02 / C04 / C05 / C11: seeded random well-formed values (all kinds, nested up to depth 3)
+        //      through the Zinc writer + libhaystack reader + reference reader, the Hayson writer + reader + reference reader, and one re-encoding
+        "enum:random-values" => {
+            use libhaystack::encoding::zinc::encode::ToZinc;
+            use libhaystack::val::{Column, Date, DateTime, Dict, Grid, Time};
+            let seed: u64 = std::env::var("VERIF_SEED").ok().and_then(|s| s.parse().ok()).unwrap_or(0);
+            let count: usize = args.get(2).and_then(|s| s.parse().ok()).unwrap_or(1500);
+            struct Rng(u64);
+            impl Rng { fn next(&mut self) -> u64 { self.0 ^= self.0 << 13; self.0 ^= self.0 >> 7; self.0 ^= self.0 << 17; self.0 }
+                fn below(&mut self, n: usize) -> usize { (self.next() % n as u64) as usize }
+                fn pick<'a, T>(&mut self, xs: &'a [T]) -> &'a T { &xs[self.below(xs.len())] } }
+            let mut rng = Rng(0x9E3779B97F4A7C15 ^ (seed.wrapping_mul(0x2545F4914F6CDD1D)).wrapping_add(1));
+            let ids = ["a", "b", "dis", "siteRef", "x1", "camelCase", "with_underscore", "n"];
+            let strs = ["", "a", "x,y", "line1\nline2", "q\"uote", "back\\slash", "$dollar", "\u{e9}\u{20ac}", "\u{1F600}", "tab\there", " lead", "<<>>", "[1,2]", "{a:1}", "ver:\"3.0\""];
+            let units = ["kg", "%", "kW", "\u{b0}F", "/h", "$", "m\u{b2}", "s"];
+            let zones = [("2021-06-19T19:48:23-04:00", "New_York"), ("2021-01-15T12:00:00-03:30", "St_Johns"), ("2021-06-19T19:48:23.5+05:30", "Kolkata"), ("2021-01-19T19:48:23Z", "London"), ("2021-06-19T19:48:23.123Z", "UTC"), ("1999-12-31T23:59:59+09:00", "Tokyo")];
+            fn scalar(rng: &mut Rng, strs: &[&str], units: &[&str], zones: &[(&str, &str)]) -> Value {
+                match rng.below(17) {
+                    0 => Value::Marker, 1 => Value::Na, 2 => Value::Remove, 3 => Value::make_bool(rng.below(2) == 0),
+                    4 => { let mags = [0.0, -0.0, 1.0, -1.0, 0.5, 1e-7, 5e-324, 1e21, 123456.789, -9876543210.5, 1.7976931348623157e308, 2.2250738585072014e-308, 0.1 + 0.2, 1e15 + 0.5];
+                           let x = *rng.pick(&mags) * if rng.below(2) == 0 { 1.0 } else { (rng.below(1000) as f64 + 1.0) / 7.0 };
+                           if rng.below(3) == 0 { match libhaystack::units::get_unit(*rng.pick(units)) { Some(u) if x.is_finite() => Value::make_number_unit(x, u), _ => Value::make_number(x) } } else { Value::make_number(x) } }
+                    5 => Value::make_number(*rng.pick(&[f64::NAN, f64::INFINITY, f64::NEG_INFINITY])),
+                    6 | 7 => Value::make_str(*rng.pick(strs)),
+                    8 => { let id = *rng.pick(&["a", "a.b:c-d~e_f", "p:demo:r:1eeb11ef-fa6b895d", "X9"]); if rng.below(2) == 0 { Value::make_ref(id) } else { Value::make_ref_with_dis(id, *rng.pick(strs)) } }
+                    9 => Value::make_symbol(*rng.pick(&["site", "a.b-c:d", "hot-water", "x1"])),
+                    10 => Value::make_uri(*rng.pick(&["http://x/y?z=1#f", "a`b", "a\\b", "/a b/\u{e9}", "[x]@y&z=1;2", ""])),
+                    11 => Value::make_date(Date::from_ymd(1 + rng.below(9998) as i32, 1 + rng.below(12) as u32, 1 + rng.below(28) as u32).unwrap()),
+                    12 => Value::make_time(Time::from_hms_milli(rng.below(24) as u32, rng.below(60) as u32, rng.below(60) as u32, *rng.pick(&[0u32, 5, 120, 999])).unwrap()),
+                    13 => { let (iso, tz) = *rng.pick(zones); Value::make_datetime(if tz == "UTC" { DateTime::parse_from_rfc3339(iso).unwrap() } else { DateTime::parse_from_rfc3339_with_timezone(iso, tz).unwrap() }) }
+                    14 => Value::make_coord_from(*rng.pick(&[0.0, -0.0, 45.5, -89.999999, 90.0, 1e-7]), *rng.pick(&[0.0, 180.0, -179.5, 23.25, 1e-9])),
+                    15 => Value::make_xstr_from(*rng.pick(&["Bin", "Span", "Foo_1", "X"]), *rng.pick(strs)),
+                    _ => Value::Null,
+                }
+            }
+            fn dict(rng: &mut Rng, depth: usize, ids: &[&str], strs: &[&str], units: &[&str], zones: &[(&str, &str)]) -> Dict {
+                let mut d = Dict::new(); for _ in 0..rng.below(5) { let k = *rng.pick(ids); let v = value(rng, depth + 1, ids, strs, units, zones); d.insert(k.into(), v); } d }
+            fn value(rng: &mut Rng, depth: usize, ids: &[&str], strs: &[&str], units: &[&str], zones: &[(&str, &str)]) -> Value {
+                if depth >= 3 || rng.below(10) < 6 { return scalar(rng, strs, units, zones); }
+                match rng.below(3) {
+                    0 => Value::make_list((0..rng.below(4)).map(|_| value(rng, depth + 1, ids, strs, units, zones)).collect()),
+                    1 => Value::make_dict(dict(rng, depth, ids, strs, units, zones)),
+                    _ => { let ncols = 1 + rng.below(4); let cols: Vec<Column> = (0..ncols).map(|i| Column { name: format!("c{i}"), meta: if rng.below(3) == 0 { let m = dict(rng, 2, ids, strs, units, zones); if m.is_empty() { None } else { Some(m) } } else { None } }).collect();
+                        let rows: Vec<Dict> = (0..rng.below(4)).map(|_| { let mut r = Dict::new(); for c in &cols { if rng.below(3) != 0 { r.insert(c.name.clone(), value(rng, depth + 1, ids, strs, units, zones)); } } r }).collect();
+                        let meta = if rng.below(2) == 0 { let m = dict(rng, 2, ids, strs, units, zones); if m.is_empty() { None } else { Some(m) } } else { None };
+                        Value::make_grid(Grid { meta, columns: cols, rows, ver: "3.0".into() }) }
+                }
+            }
+            let dbg = |v: &Value| format!("{:?}", norm(v));
+            for i in 0..count {
+                let v = value(&mut rng, 0, &ids, &strs, &units, &zones);
+                let fail = |what: &str, text: &str, got: String| { println!("RESULT enum:random-values seed={seed} value #{i} {v:?}: {what}: text={text:?} got={got}"); std::process::exit(3); };
+                let z = match v.to_zinc_string() { Ok(z) => z, Err(e) => { fail("cannot be written as Zinc", "", e.to_string()); unreachable!() } };
+                match from_str(&z) { Ok(b) if dbg(&b) == dbg(&v) => { if let Ok(z2) = b.to_zinc_string() { if z2 != z { fail("Zinc re-encoding differs", &z, z2); } } } other => fail("Zinc round trip", &z, format!("{other:?}")) }
+                match refzinc::parse(&z) { Ok(b) if dbg(&b) == dbg(&v) => {} other => fail("the reference Zinc reader disagrees", &z, format!("{other:?}")) }
+                let j = match serde_json::to_string(&v) { Ok(j) => j, Err(e) => { fail("cannot be written as Hayson", "", e.to_string()); unreachable!() } };
+                match serde_json::from_str::<Value>(&j) { Ok(b) if dbg(&b) == dbg(&v) => { if let Ok(j2) = serde_json::to_string(&b) { if j2 != j { fail("Hayson re-encoding differs", &j, j2); } } } other => fail("Hayson round trip", &j, format!("{other:?}")) }
+                match serde_json::from_str::<serde_json::Value>(&j).map_err(|e| e.to_string()).and_then(|t| refhayson::decode(&t)) { Ok(b) if dbg(&b) == dbg(&v) => {} other => fail("the reference Hayson reader disagrees", &j, format!("{other:?}")) }
+            }
+            println!("RESULT enum:random-values seed={seed}: {count} random well-formed values survive Zinc and Hayson round trips, both reference readers and one re-encoding");
         }
         // ---- C09 enumerator (evaluation half): `id *== @ref` over resolvers whose refs form chains and cycles of several shapes must
         //      terminate with the right answer; a run that does not come back is reported as a hang by the caller's watchdog
